@@ -135,7 +135,7 @@ def tiers(tier):
     few = ['AndMode', 'XorMode', 'NewMode']
     if tier == 'quick':
         return [('empty', Scenario('empty', modes=few, n_states=1), 5),
-                ('group-edited', Scenario('group-edited', modes=MODES, n_states=2, roi=False, names=('d1',)), 4),
+                ('group-edited', Scenario('group-edited', modes=MODES, n_states=1, roi=False, names=('d1',)), 4),
                 ('max-undo-2', Scenario('group-not-edited', modes=['OrMode'], n_states=1, roi=False,
                                         max_undo=2, names=('d1',)), 6)]
     return [('empty', Scenario('empty', modes=MODES, n_states=2), 5),
